@@ -2,6 +2,7 @@ package main
 
 import (
 	"fmt"
+	"github.com/taskctl/taskctl/pkg/variables"
 	"math/rand"
 	"os"
 	"os/exec"
@@ -37,6 +38,12 @@ func eventFilterCases(col *Collector) {
 			trace := filepath.Join(dir, fmt.Sprintf("t-%d-%d", mask, oi))
 			t := task.FromCommands(fmt.Sprintf("echo \"$EventName $EventPath\" >> %s", trace))
 			t.Name = "t"
+			if (mask+oi)%3 == 1 {
+				// the task declares values of its own for the event variables (so that it can also be run by hand):
+				// when an event runs it, EventName and EventPath describe the event
+				t.Env = variables.FromMap(map[string]string{"EventName": "by-hand", "EventPath": "/nowhere", "OTHER": "x"})
+				t.Variables = variables.FromMap(map[string]string{"EVENT_NAME": "by-hand", "EVENT_PATH": "/nowhere"})
+			}
 			cs := Case{Tags: []string{"event-filter"}, NonTrivial: true}
 			sub := strings.Join(subs, "+")
 			if sub == "" {
